@@ -19,7 +19,7 @@ from ..findings import Reporter
 from ..tlaval import dump_chunks, parse, parse_state
 
 PROP = "C08"
-CLASSES = ["plain", "empty", "quote", "backslash", "bsquote", "newline", "tab", "ctrl", "nonascii", "astral", "trailbs", "jsonish"]
+CLASSES = ["plain", "empty", "quote", "backslash", "bsquote", "newline", "tab", "ctrl", "nonascii", "astral", "trailbs", "jsonish", "linesep"]
 INSTANCES = {
     "plain": ["alpha", "Beta_2", "x"],
     "empty": [""],
@@ -33,6 +33,8 @@ INSTANCES = {
     "astral": ["f\U0001f600", "\U0001d54f"],
     "trailbs": ["ab\\", "x\\\\"],
     "jsonish": ['", "x": "', '"}, {"', "\\u0041", "</script>"],
+    # everything str.splitlines() / a text-mode reader may take for a line break, followed by a visible character
+    "linesep": ["a\u2028b", "x\u2029y", "p\x85q", "v\x0bw", "f\x0cg", "s\x1ct\x1du\x1ev"],
 }
 BOUNDS = {"quick": dict(MaxFiles=2, MaxMeas=1, MaxSpecial=1, inst=1, shapes='{"top", "nested", "deep"}'), "thorough": dict(MaxFiles=3, MaxMeas=1, MaxSpecial=1, inst=3, shapes='{"top", "nested", "deep"}')}
 
